@@ -48,11 +48,14 @@ static void run_decoder_in(int d, uint8_t* in, size_t n) {
     switch (d) {
     case DEC_META: {
         carquet_arena_t ar; parquet_file_metadata_t m; carquet_error_t err = CARQUET_ERROR_INIT; lb = mcf_live(); mcf_on();
+        { carquet_arena_t a2; parquet_file_metadata_t m2; if (carquet_arena_init(&a2) == CARQUET_OK) { (void)parquet_parse_file_metadata(in, n, &a2, &m2, NULL); carquet_arena_destroy(&a2); } }      /* the error argument is optional */
         if (carquet_arena_init(&ar) == CARQUET_OK) { carquet_status_t st = parquet_parse_file_metadata(in, n, &ar, &m, &err); if (st != CARQUET_OK && (err.code == CARQUET_OK || !memchr(err.message, 0, sizeof err.message))) mc_fail("thrift-file-metadata.error-contract", "%s: status %d but error struct code %d", g_cur, st, err.code); carquet_arena_destroy(&ar); }
         mcf_off(); leak_check(dn, lb, true); break; }
     case DEC_PAGEHDR: {
         parquet_page_header_t h; size_t used = 0; carquet_error_t err = CARQUET_ERROR_INIT; lb = mcf_live(); mcf_on();
-        carquet_status_t st = parquet_parse_page_header(in, n, &h, &used, &err); mcf_off();
+        carquet_status_t st = parquet_parse_page_header(in, n, &h, &used, &err);
+        { parquet_page_header_t h2; size_t u2 = 0; carquet_status_t s2 = parquet_parse_page_header(in, n, &h2, &u2, NULL); if ((s2 == CARQUET_OK) != (st == CARQUET_OK)) mc_fail("thrift-page-header.verdict-depends-on-error-argument", "%s: status %d with an error struct, %d without", g_cur, st, s2); }
+        mcf_off();
         if (st == CARQUET_OK) CHECK_RANGE(dn, used <= n, "%s: bytes_read %zu of %zu", g_cur, used, n);
         leak_check(dn, lb, st != CARQUET_OK); break; }
     case DEC_RLE_ALL: case DEC_RLE_LEVELS: case DEC_RLE_PREFIXED: case DEC_RLE_STREAM:
